@@ -427,6 +427,8 @@ func (in *Interp) boundsCheck(st *State, idx *Term, n int, pos token.Pos, what s
 	var ok *Term
 	if n == 0 {
 		ok = in.tf.False()
+	} else if idx.W < 63 && uint64(n) >= uint64(1)<<uint(idx.W) {
+		ok = in.tf.True() // every value of the index type is in range
 	} else {
 		ok = in.tf.Cmp("bvult", idx, in.tf.ConstU(idx.W, uint64(n)))
 	}
